@@ -172,6 +172,17 @@ def install():
     shim.socket = FakeSocket
     listener.socket = shim
 
+    import warnings
+    warnings.filterwarnings('ignore', message='.*FFDH.*')
+    warnings.filterwarnings('ignore', category=DeprecationWarning)
+
+    try:
+        from cryptography.utils import CryptographyDeprecationWarning
+        warnings.filterwarnings('ignore',
+                                category=CryptographyDeprecationWarning)
+    except ImportError:
+        pass
+
     # -- quiet logging ----------------------------------------------------------
     import logging
     logging.getLogger('asyncssh').setLevel(logging.CRITICAL)
